@@ -43,7 +43,7 @@ def rule_restore(repo, rid, modules, floor=0):
                      'between: an exception raised by user code inside must not leave the adjustment behind', floor=floor)
     n = 0
     for m in modules:
-        for f in repo.module(m).functions.values():
+        for f in repo.functions_view(m):
             n += 1
             ps = pairs(f.node)
             if ps:
